@@ -25,7 +25,12 @@ const Rule = "case = (grammar, one transformation): description lines, the trans
 	"agrees with the independent CNF check, the receiver equals a clone taken before the call AND renders to " +
 	"the same text as before (a deep rendering: Clone shares the production values); grammars as in C08 (incl. " +
 	"terminals named like non-terminals, pipelines T1 then T2, names that look generated — A, A₁, A₂, A′, aₙ … with a body of 3-5 symbols; " +
-	"post-conditions only where the result grammar depends on Go's iteration order —, bodies of 99-104 symbols) plus helper cases (Verify() and " +
+	"post-conditions only where the result grammar depends on Go's iteration order —, bodies of 99-104 symbols, names as a dimension — gx.NameSchemes, alternatives rendered alike, a terminal that only a like-rendered " +
+	"non-terminal keeps in use; `post1 <op>` = validity + the op's own normal form where cmpProduction ties make the result grammar depend on hash " +
+	"iteration —, threshold sweeps: one dimension (body length / index of a nullable symbol, non-terminals in a chain with the left-recursive cluster " +
+	"late or early in the order, terminals = alternatives = productions, prefix group, unit closure, nullable, unreachable symbols) at 63-70, thorough " +
+	"127-134, 255-262 and, on the implementation and the Go oracle only (hx.Case.NoModel: also unit closures and nullable chains from 127 and chains " +
+	"from 255 up, where Lean's decision procedures dominate), 1023-1025) plus helper cases (Verify() and " +
 	"IsCNF() as error lists, AnyMatch / AllMatch / SelectMatch, Equal, the comparators and hashes, on valid and on malformed " +
 	"grammars) and `parsers` on malformed grammars (the caller's grammar stays unchanged whether the constructor returns or " +
 	"panics; the Model predicts which for predictive.BuildParsingTable); non-trivial = the input did not already satisfy the op's post-condition (or, for `parsers`, " +
@@ -47,6 +52,26 @@ func PostLine(orig, g gx.G) string {
 	return fmt.Sprintf("ok valid=%s noempty=%s nounit=%s reach=%s nocycle=%s noleftrec=%s leftfactored=%s cnf=%s loosecnf=%s",
 		b(c08.Valid(g)), b(c08.NoEmptyExceptFreshStart(orig, g)), b(c08.NoUnit(g)), b(c08.AllReachable(g)),
 		b(c08.NoCycle(g)), b(c08.NoLeftRecursion(g)), b(c08.LeftFactored(g)), b(c08.CNF(g)), loose)
+}
+
+// PostLine1 is the answer to `post1 <op>`: validity and the op's own normal form only — what does not depend on which of
+// several equally good result grammars came out (cases whose result depends on Go's iteration order, harness/c08/names.go:
+// OrderSafe).  Byte-identical to the Lean driver's showPost1.
+func PostLine1(op string, g gx.G) string {
+	b := func(ok bool, _ string) string {
+		if ok {
+			return "true"
+		}
+		return "false"
+	}
+	line := "ok valid=" + b(c08.Valid(g))
+	switch op {
+	case "leftrec":
+		line += " noleftrec=" + b(c08.NoLeftRecursion(g))
+	case "cnf":
+		line += " cnf=" + b(c08.CNF(g))
+	}
+	return line
 }
 
 // post evaluates the op's own post-condition on the result.
@@ -181,7 +206,7 @@ func Exec(c hx.Case) hx.Result {
 		i := p.NDef + j
 		f := strings.Fields(op)
 		switch {
-		case (len(f) == 1 && c08.IsOp(f[0])) || (len(f) == 2 && f[0] == "post" && c08.IsOp(f[1])):
+		case (len(f) == 1 && c08.IsOp(f[0])) || (len(f) == 2 && (f[0] == "post" || f[0] == "post1") && c08.IsOp(f[1])):
 			name := f[len(f)-1]
 			isPost := len(f) == 2
 			cfg := c08.ToCFG(g)
@@ -212,7 +237,9 @@ func Exec(c hx.Case) hx.Result {
 				continue
 			}
 			h := c08.FromCFG(out)
-			if isPost {
+			if isPost && f[0] == "post1" {
+				res.Outs = append(res.Outs, PostLine1(name, h))
+			} else if isPost {
 				res.Outs = append(res.Outs, PostLine(g, h))
 			} else {
 				res.Outs = append(res.Outs, "ok "+h.Show())
@@ -244,6 +271,12 @@ func Exec(c hx.Case) hx.Result {
 					sig = "leftfactor-head-without-singleton-alternative"
 				}
 				bad(i, sig, "result of %s violates its post-condition (%s): %s; result %s", name, pn, why, h.Show())
+			}
+			if name == "cycles" {
+				// EliminateCycles ends with EliminateUnreachableProductions (C09_cycles_allReachable)
+				if ok, why := c08.AllReachable(h); !ok {
+					bad(i, "", "result of cycles has a symbol that is not reachable from the start symbol: %s; result %s", why, h.Show())
+				}
 			}
 			if name == "cnf" {
 				lib := out.IsCNF() == nil
@@ -392,11 +425,30 @@ func Main(run *hx.Run) {
 		for k := 0; k < run.Scale(24); k++ {
 			g := c08.SuffixedNames(r, c08.GenGrammar(r, c08.Mixes[k%len(c08.Mixes)]))
 			comps, cases := c08.SuffixedCases(g, "suffixed-names", caseFor, func(g gx.G, mix, op string) hx.Case {
-				return hx.Case{Header: fmt.Sprintf("comp=%s mix=%s", op, mix), Ops: append(g.Lines(), "post "+op)}
+				return hx.Case{Header: fmt.Sprintf("comp=%s mix=%s", op, mix), Ops: append(g.Lines(), "post1 "+op)}
 			})
 			for i := range cases {
 				lim.Do(run, comps[i], cases[i], Exec)
 			}
+		}
+	}
+	{
+		// names as a dimension (see harness/c08/names.go: NamedGrammars)
+		c08.NamedGrammars(run.R.Fork("names"), run.Scale(4), run.Scale(10), func(mix string, g gx.G) {
+			comps, cases := c08.SuffixedCases(g, mix, caseFor, func(g gx.G, mix, op string) hx.Case {
+				return hx.Case{Header: fmt.Sprintf("comp=%s mix=%s", op, mix), Ops: append(g.Lines(), "post1 "+op)}
+			})
+			for i := range cases {
+				lim.Do(run, comps[i], cases[i], Exec)
+			}
+		})
+	}
+	for _, sc := range c08.SizeCases(run.Thorough()) {
+		// threshold sweeps: one dimension at 63 / 64 / 65 (thorough: up to 257), everything else small
+		for _, op := range sc.Ops {
+			c := caseFor(sc.G, sc.Mix, op)
+			c.NoModel = sc.NoModel09
+			lim.Do(run, op, c, Exec)
 		}
 	}
 	{
